@@ -24,6 +24,10 @@ import (
 const rtPath = "verif/vsim/rt"
 const rtName = "vsimrt"
 
+// LegacyTimers: rewrite time.NewTimer & co. to rt's timers with the pre-1.23
+// channel semantics (set by Tree from the go directive of the module under test).
+var LegacyTimers = true
+
 // Granularity per package directory.
 var StmtPkgs = map[string]bool{
 	"apps/proxy/circular_queue": true,
@@ -52,6 +56,7 @@ type ctx struct {
 	fnG      bool
 	counts   map[string]int
 	tmp      int
+	timeRewritten bool
 	chanName map[string]bool // identifiers known to be channels (heuristic, for range)
 	chanType map[string]bool // named channel types of the package
 }
@@ -472,6 +477,31 @@ func (c *ctx) file(f *ast.File) {
 			fd.Body.List = append([]ast.Stmt{c.yieldG(fd, "YieldF", "fn "+fd.Name.Name)}, fd.Body.List...)
 		}
 	}
+	usesTime := false
+	for _, im := range f.Imports {
+		if im.Path.Value == `"time"` && im.Name == nil {
+			usesTime = true
+		}
+	}
+	if usesTime && LegacyTimers {
+		// timers with the legacy channel semantics of the module's Go version
+		ast.Inspect(f, func(n ast.Node) bool {
+			sel, ok := n.(*ast.SelectorExpr)
+			if !ok {
+				return true
+			}
+			if id, ok := sel.X.(*ast.Ident); ok && id.Name == "time" && id.Obj == nil {
+				switch sel.Sel.Name {
+				case "NewTimer", "After", "AfterFunc", "NewTicker", "Tick", "Timer", "Ticker":
+					id.Name = rtName
+					c.changed = true
+					c.timeRewritten = true
+					c.counts["time."+sel.Sel.Name]++
+				}
+			}
+			return true
+		})
+	}
 	if usesOS {
 		ast.Inspect(f, func(n ast.Node) bool {
 			sel, ok := n.(*ast.SelectorExpr)
@@ -494,6 +524,10 @@ func (c *ctx) file(f *ast.File) {
 		decl := &ast.GenDecl{Tok: token.IMPORT, Specs: []ast.Spec{spec}}
 		f.Decls = append([]ast.Decl{decl}, f.Decls...)
 		f.Imports = append(f.Imports, spec)
+		if c.timeRewritten {
+			// keep "time" used
+			f.Decls = append(f.Decls, &ast.GenDecl{Tok: token.VAR, Specs: []ast.Spec{&ast.ValueSpec{Names: []*ast.Ident{ast.NewIdent("_")}, Values: []ast.Expr{&ast.SelectorExpr{X: ast.NewIdent("time"), Sel: ast.NewIdent("Now")}}}}})
+		}
 		if usesOS {
 			// keep "os" used
 			f.Decls = append(f.Decls, &ast.GenDecl{Tok: token.VAR, Specs: []ast.Spec{&ast.ValueSpec{Names: []*ast.Ident{ast.NewIdent("_")}, Values: []ast.Expr{&ast.SelectorExpr{X: ast.NewIdent("os"), Sel: ast.NewIdent("Getpid")}}}}})
@@ -533,6 +567,19 @@ func namedChanTypes(files []*ast.File) map[string]bool {
 // in skip) and writes the copies below out/src.
 func Tree(repo, out string, exclude map[string]bool) (*Result, error) {
 	res := &Result{Overlay: map[string]string{}, Counts: map[string]int{}}
+	LegacyTimers = true
+	if b, err := os.ReadFile(filepath.Join(repo, "go.mod")); err == nil {
+		for _, line := range strings.Split(string(b), "\n") {
+			f := strings.Fields(line)
+			if len(f) == 2 && f[0] == "go" {
+				var maj, min int
+				fmt.Sscanf(f[1], "%d.%d", &maj, &min)
+				if maj > 1 || (maj == 1 && min >= 23) {
+					LegacyTimers = false // the module opted into the new timer semantics, which synctest provides
+				}
+			}
+		}
+	}
 	byDir := map[string][]string{}
 	err := filepath.Walk(repo, func(p string, info os.FileInfo, err error) error {
 		if err != nil {
